@@ -210,7 +210,10 @@ def build_designspace(axes, sources, rules=None, lib=None, instances=None, modul
         for vf in variable_fonts:
             ds.addVariableFont(VariableFontDescriptor(
                 name=vf["name"],
-                axisSubsets=[RangeAxisSubsetDescriptor(name=n) for n in vf["axes"]]))
+                axisSubsets=[RangeAxisSubsetDescriptor(name=n) if isinstance(n, str) else
+                             RangeAxisSubsetDescriptor(name=n["name"], userMinimum=n["min"],
+                                                       userDefault=n.get("default"), userMaximum=n["max"])
+                             for n in vf["axes"]]))
     for k, v in (lib or {}).items():
         ds.lib[k] = copy.deepcopy(v)
     if format_version:
